@@ -286,14 +286,21 @@ def _run(scn, w, res):
             a = netref.parent(a)
         return True
 
-    def answer_arrived(nc_, c_, my_addr=None):
-        """sniffer: a lookup reply addressed to this node was stored by its radio early enough to be read before the call returned"""
+    def answer_arrived(nc_, c_, my_addr=None, typ=None):
+        """sniffer: the reply to *this* call's request (same type, echoing the frame id of a request this node put on the air
+        during the call) was stored by the node's radio early enough to be read before the call returned"""
         name = "n%s" % nc_.key
         margin = 2 * nc_.mcu.poll_ns + 5 * MS
+        req_ids = set()
         for t in w.air.trace:
-            if t["ack"] or len(t["data"]) < 8 or t["data"][6] not in (196, 198):
+            d_ = t["data"]
+            if not t["ack"] and t["src"] == name and len(d_) >= 8 and d_[6] == typ and c_.t0 <= t["t0"] <= c_.t1 and (d_[0] | (d_[1] << 8)) == my_addr:
+                req_ids.add(d_[4] | (d_[5] << 8))
+        for t in w.air.trace:
+            d_ = t["data"]
+            if t["ack"] or len(d_) < 8 or d_[6] != typ or (d_[4] | (d_[5] << 8)) not in req_ids:
                 continue
-            if c_.t0 <= t["t1"] <= c_.t1 - margin and (name, "stored") in [tuple(x) for x in t["rx"]] and (t["data"][2] | (t["data"][3] << 8)) == (t["data"][0] | (t["data"][1] << 8)) == my_addr:
+            if c_.t0 <= t["t1"] <= c_.t1 - margin and (name, "stored") in [tuple(x) for x in t["rx"]] and (d_[2] | (d_[3] << 8)) == (d_[0] | (d_[1] << 8)) == my_addr and t["src"] != name:
                 return True
         return False
 
@@ -381,7 +388,7 @@ def _run(scn, w, res):
                     ok = {tab.get(q, -2) for tab in tables(c.t0, c.t1)}
                     if r not in ok and r != -1:
                         res.add("lookup", {"kind": "wrong_address", "negative": r < 0, "want_negative": min(ok) < 0}, "lookup_address(%d) = %r; master's mapping during the call: %r" % (q, r, sorted(ok)))
-                    elif r == -1 and answer_arrived(nc, c, cur_addr):
+                    elif r == -1 and answer_arrived(nc, c, cur_addr, 196):
                         res.add("lookup", {"kind": "answer_ignored"}, "lookup_address(%d) = -1 (no answer) although the master's reply reached the node's radio in time" % q)
                     elif r == -1 and isolated(nid, c):
                         res.add("lookup", {"kind": "no_answer"}, "lookup_address(%d) = -1 (no answer) on a loss-free medium with no other call in progress anywhere" % q)
@@ -407,7 +414,7 @@ def _run(scn, w, res):
                         ok.add(-2)
                     if got not in ok and got != -1:
                         res.add("lookup", {"kind": "wrong_id", "negative": got < 0, "want_negative": min(ok) < 0}, "lookup_node_id(%o) = %r; master's mapping during the call: %r" % (a, got, sorted(ok)))
-                    elif got == -1 and answer_arrived(nc, c, cur_addr):
+                    elif got == -1 and answer_arrived(nc, c, cur_addr, 198):
                         res.add("lookup", {"kind": "answer_ignored"}, "lookup_node_id(%o) = -1 (no answer) although the master's reply reached the node's radio in time" % a)
                     elif got == -1 and isolated(nid, c):
                         res.add("lookup", {"kind": "no_answer"}, "lookup_node_id(%o) = -1 (no answer) on a loss-free medium with no other call in progress anywhere" % a)
